@@ -32,6 +32,10 @@ pub enum WOp {
     /// earlier (selected among those on the wire so far), delivered again now in its original direction
     #[serde(alias = "ReplayHandshake")]
     ReplayControl { c: u8, to_server: bool, sel: u16 },
+    /// a stray / spoofed frame that no endpoint sent, carrying the peer's address as its source: 0 Disconnect,
+    /// 1 DisconnectAck, 2 HandshakeError, 3 SYN-ACK, 4 handshake ACK (the last three with the given, i.e. a wrong,
+    /// nonce), 5 empty data frame, 6 keepalive sync, 7 empty ack frame
+    Stray { c: u8, to_server: bool, kind: u8, nonce: u32 },
 }
 
 #[derive(Clone, Debug, Serialize, Deserialize)]
@@ -64,6 +68,7 @@ pub struct WorldLog {
     pub ci: Vec<Option<usize>>,
     pub max_step_gap_us: u64,
     pub end_us: u64,
+    pub stray_count: u32,
 }
 
 #[derive(Clone, Debug)]
@@ -81,6 +86,8 @@ pub struct ScriptParams {
     pub replay_weight: u32,
     /// generate servers whose limits are at or below the number of clients, with handshake errors on or off
     pub vary_server_limits: bool,
+    /// weight of stray / spoofed frames
+    pub stray_weight: u32,
 }
 
 pub fn fate_strategy(faults: bool) -> BoxedStrategy<Fate> {
@@ -133,6 +140,7 @@ pub fn wop_strategy(p: &ScriptParams) -> BoxedStrategy<WOp> {
         2 => (0..nc).prop_map(|c| WOp::ClientFlush { c }),
         2 => Just(WOp::ServerFlush),
         p.replay_weight => (0..nc, any::<bool>(), any::<u16>()).prop_map(|(c, to_server, sel)| WOp::ReplayControl { c, to_server, sel }),
+        p.stray_weight => (0..nc, any::<bool>(), 0u8..8, any::<u32>()).prop_map(|(c, to_server, kind, nonce)| WOp::Stray { c, to_server, kind, nonce }),
         if p.faults { 2 } else { 0 } => (0..nc, 1u8..4, prop_oneof![3 => 10u32..2_000, 2 => 2_000u32..30_000, 1 => Just(10_000_000u32)]).prop_map(|(c, dirs, len_ms)| WOp::Blackout { c, dirs, len_ms }),
     ]
     .boxed()
@@ -179,6 +187,7 @@ pub fn run_script(c: &WCase) -> WorldLog {
     let mut last_step_server = 0u64;
     let mut last_step_client: Vec<u64> = vec![0; n];
     let mut max_gap = 0u64;
+    let mut stray_count = 0u32;
 
     let start_clients = |w: &mut World, ci: &mut Vec<Option<usize>>, tick_no: u16| {
         for (k, spec) in c.clients.iter().enumerate() {
@@ -317,6 +326,28 @@ pub fn run_script(c: &WCase) -> WorldLog {
                     }
                 }
             }
+            WOp::Stray { c: k, to_server, kind, nonce } => {
+                let k = *k as usize % n;
+                if let Some(i) = ci[k] {
+                    use uflow::verif::*;
+                    let addr = w.clients[i].addr;
+                    let saddr = w.server_addr;
+                    let (from, to) = if *to_server { (addr, saddr) } else { (saddr, addr) };
+                    let f = match kind % 8 {
+                        0 => Frame::DisconnectFrame(DisconnectFrame {}),
+                        1 => Frame::DisconnectAckFrame(DisconnectAckFrame {}),
+                        2 => Frame::HandshakeErrorFrame(HandshakeErrorFrame { nonce_ack: *nonce, error: HandshakeErrorType::ServerFull }),
+                        3 => Frame::HandshakeSynAckFrame(HandshakeSynAckFrame { nonce_ack: *nonce, nonce: nonce.rotate_left(7), max_receive_rate: 1_000_000, max_packet_size: 1000, max_receive_alloc: 1_000_000 }),
+                        4 => Frame::HandshakeAckFrame(HandshakeAckFrame { nonce_ack: *nonce }),
+                        5 => Frame::DataFrame(DataFrame { sequence_id: *nonce, nonce: false, datagrams: vec![] }),
+                        6 => Frame::SyncFrame(SyncFrame { next_frame_id: None, next_packet_id: None }),
+                        _ => Frame::AckFrame(AckFrame { frame_window_base_id: *nonce, packet_window_base_id: *nonce & 0xFFFFF, frame_acks: vec![] }),
+                    };
+                    let bytes = f.write();
+                    w.send_raw(from, to, &bytes, 0);
+                    stray_count += 1;
+                }
+            }
             WOp::Blackout { c: k, dirs, len_ms } => {
                 let k = *k as usize % n;
                 if let Some(i) = ci[k] {
@@ -337,7 +368,7 @@ pub fn run_script(c: &WCase) -> WorldLog {
         start_clients(&mut w, &mut ci, u16::MAX);
     }
     let end_us = w.now_us;
-    WorldLog { world: w, api, ci, max_step_gap_us: max_gap, end_us }
+    WorldLog { world: w, api, ci, max_step_gap_us: max_gap, end_us, stray_count }
 }
 
 pub fn client_addr(log: &WorldLog, k: usize) -> Option<SocketAddr> {
